@@ -136,8 +136,12 @@ func judge(class string, key []byte, o *fw.Obs) {
 		entCopy := append([]byte(nil), ent...)
 		var m bip39.Mnemonic
 		var err error
-		entBuf := append([]byte(nil), ent...)
+		var sp fw.SpareSet
+		entBuf := sp.Of("entropy", ent, 64) // a window into a larger buffer: appending the checksum to it would write into the caller's memory
 		if !o.Try("EntropyToMnemonic", func() { m, err = bip39.EntropyToMnemonic(entBuf) }) {
+			return
+		}
+		if !sp.Check(o) {
 			return
 		}
 		if !bytes.Equal(entBuf, entCopy) {
